@@ -110,7 +110,35 @@ def check(repo: Repo, run: Run) -> None:
             pth = e.path if e.path is not None else e.base
             if pth in (ADDRS, UUIDS) and e.func.endswith("." + name):
                 pkrec_writers.append((name, e))
-    ok = set(writers) == {"insert_image"} and not pkrec_writers
+    # a private helper that only insert_image calls is part of insert_image (its writes are judged below, in insert_image's
+    # record, where the helper is inlined)
+    import ast as _ast
+    def _only_from(helper: str, allowed: set) -> bool:
+        sites = 0
+        own = {id(f_): n_ for n_, f_ in cp.methods.items()}
+        for m_ in repo.modules.values():
+            stack = [(m_.tree, None)]
+            while stack:
+                node, encl = stack.pop()
+                if isinstance(node, (_ast.FunctionDef, _ast.AsyncFunctionDef, _ast.Lambda)):
+                    encl = node
+                if isinstance(node, _ast.Attribute) and node.attr == helper:
+                    sites += 1
+                    if encl is None or own.get(id(encl)) not in allowed:
+                        return False
+                if isinstance(node, _ast.Name) and node.id == helper:
+                    return False
+                stack.extend((ch, encl) for ch in _ast.iter_child_nodes(node))
+        return sites > 0
+    part_of_insert = {"insert_image"}
+    changed = True
+    while changed:
+        changed = False
+        for w_ in sorted(set(writers) - part_of_insert):
+            if w_.startswith("_") and not w_.startswith("__") and _only_from(w_, part_of_insert):
+                part_of_insert.add(w_)
+                changed = True
+    ok = bool(writers) and set(writers) <= part_of_insert and not pkrec_writers
     run.ob("R1", MOD, "CallstacksParser", "only insert_image writes the image lists", ok,
            f"the image lists are written by {sorted(writers)} {[n for n, _ in pkrec_writers]}; only insert_image may, otherwise the "
            f"two lists stop being parallel / sorted", facts={"writers": sorted(writers)})
@@ -193,6 +221,24 @@ def check(repo: Repo, run: Run) -> None:
            "feed_generator does not build the frames by one loop / comprehension over trace.cs_frames, in order", line=fg.lineno)
     if not one_pass:
         return
+    # what the path conditions decide is applied to the constructions: `i = b - 1 if b > 0 else None` used under `i is not
+    # None` is b - 1 used under b > 0
+    from .. import normal as _normal
+    settled = []
+    for pc_, fa_, ln_ in cases:
+        assume, pc2, dead = {}, [], False
+        for c_, pol_ in pc_:
+            c2 = _normal.simplify_cond(c_, assume)
+            if c2.op == "const":
+                if bool(c2.a[0]) != pol_:
+                    dead = True
+                continue
+            pc2.append((c2, pol_))
+            assume = render.with_assumption(assume, c2, pol_)
+        if dead:
+            continue
+        settled.append((pc2, tuple(_normal.simplify(x, assume) if x is not None else None for x in fa_), ln_))
+    cases = settled
     hit = [k for k in cases if k[1][1:] != (const(None), const(None))]
     miss = [k for k in cases if k[1][1:] == (const(None), const(None))]
     ok_shape = len(hit) == 1 and len(miss) == 1
